@@ -221,10 +221,30 @@ depthLoop:
 		}
 	}
 	st.FrontierSize = len(frontier)
+	if o.NShards > 1 {
+		// sub-shards keep separate seen-sets; the driver unions these hashes to
+		// report distinct states per configuration
+		for k := range seen {
+			st.KeyHashes = append(st.KeyHashes, hashKey(k))
+		}
+		for k := range nontriv {
+			st.NontrivHashes = append(st.NontrivHashes, hashKey(k))
+		}
+		st.SubShard = fmt.Sprintf("%d/%d", o.Shard, o.NShards)
+	}
 	st.States = len(seen)
 	st.Nontrivial = len(nontriv)
 	if len(st.Samples) == 0 && len(frontier) > 0 {
 		st.Samples = append(st.Samples, map[string]interface{}{"history": frontier[0].ops})
 	}
 	return res
+}
+
+func hashKey(k string) uint64 {
+	h := uint64(1469598103934665603)
+	for i := 0; i < len(k); i++ {
+		h ^= uint64(k[i])
+		h *= 1099511628211
+	}
+	return h
 }
